@@ -3,8 +3,8 @@
 R13a handler completeness: in Engine.tick the calls self.interpreter.tick(...) and self._command_manager.tick(...)
      lie in the body of a try whose handler list contains a catch-all (except Exception / bare) and in which
      *every* handler reaches self.set_error_state(...) on all of its paths and never re-raises.
-R13b set_error_state writes Method Status=Error, System State=Paused and _runstate_paused=True on every
-     path to its exit, and the listener fan-out it ends with cannot raise: every EventEmitter.emit_* method
+R13b set_error_state writes Method Status=Error on every path and System State=Paused and _runstate_paused=True on every
+     path on which a run is active (they may be skipped only under `not self._runstate_started`), and the listener fan-out it ends with cannot raise: every EventEmitter.emit_* method
      wraps each listener call in a try with a catch-all handler that does not re-raise.
 R13c failure marking and propagation. PInterpreter.visit runs the concrete visitor (super().visit + yield from)
      inside a try whose catch-all handler sets node.failed = True and records self._last_error, without
@@ -189,7 +189,12 @@ def run(ctx) -> None:
             ctx.fail("R13b", ses, ses.node, inst, f"set_error_state no longer performs '{what}': a failing instruction does "
                      "not pause the run / is not reported as a method error")
             continue
-        p = gs.path_to_exit_avoiding(None, pred, follow_exc=False)
+        # "a failing instruction pauses the run": there is a run to pause. The two pause writes may be skipped when no run is active
+        # (the false outcome of a test of the started flag) - an error while idle must not leave the engine Paused without a run.
+        def no_run(sid, dd, lab, gs=gs):
+            nd = gs.nodes[sid]
+            return what != "Method Status := Error" and nd.kind == "test" and norm(nd.ast) == "self._runstate_started" and lab == "F"
+        p = gs.search(None, lambda n: n.id == gs.exit.id, blocked=pred, blocked_edge=no_run, follow_exc=False)
         if p is not None:
             ctx.fail("R13b", ses, ses.node, inst, f"a path through set_error_state skips '{what}'", p)
         else:
